@@ -10,7 +10,7 @@ Definition Pre_jitunion_isets (args : list value) : Prop :=
 
 Definition ann_jitunion_isets (l : nat) : annot :=
   match l with
-  | 0%nat => ALoop [("i", KInt); ("ct", KInt); ("e", KSc); ("new_start", KArr); ("new_end", KArr)]
+  | 1%nat => ALoop [("i", KInt); ("ct", KInt); ("e", KSc); ("new_start", KArr); ("new_end", KArr)]
                    (fun st0 st => 0 <= getZ st "ct" < getZ st "i" /\ getZ st "i" <= getZ st0 "n")
   | _ => ANone
   end.
